@@ -6,7 +6,7 @@ from typing import List, Union
 
 from vf.cond import cond
 
-from .common import Environment, LiquidError, concrete_int, in_alpha, seed, tier
+from .common import drive, Environment, LiquidError, concrete_int, in_alpha, seed, tier
 
 from liquid2.builtin.expressions import _contains, _eq, _lt, is_truthy  # noqa: E402
 from liquid2.stringify import to_liquid_string  # noqa: E402
@@ -80,8 +80,9 @@ def _reference(i: int, cfg, data: dict):
     pre=["-1 <= x <= 3", "0 <= n <= 3", "len(s) <= 1", "in_alpha(s, 'aB ')", "len(a) <= 2", "all(0 <= k <= 2 for k in a)", "0 <= cfg < 6"],
     timeout=200,
     timeout_thorough=400,
-    shard={"i": program_ids(), "cfg": list(range(6))},
+    shard={"i": program_ids()},
     shard_thorough={"i": list(range(N_THOROUGH))},
+    split={"cfg": list(range(6))},
     path_timeout=30,
     covers="render(program, data) equals the reference interpreter's output (or both fail) for every data assignment and every configuration: literal text modulo whitespace control, output stringification, if/elsif/else, unless, case/when, for with limit/offset/continue/reversed/else/break/continue and forloop.*, assign/capture scoping, counters, cycles, echo, liquid, raw, comments, with, ranges, ternaries, and/or/not/comparison operators, empty/blank/nil, 12 filters",
     bounds="24 generated programs per run (selected by VERIF_SEED; thorough: 240), nesting depth <= 2; x int -1..3, n int 0..3, b bool, s str over {a B space} len <= 1, a list len <= 2 of ints 0..2, u undefined; 3 default_trim x 2 suppression settings (solver choice)",
@@ -249,16 +250,16 @@ LOOP_P = [
 @cond(
     pre=["len(a) <= 3", "all(0 <= k <= 3 for k in a)", "-2 <= l <= 4", "-2 <= o <= 4"],
     timeout=240,
-    shard={"i": [0, 1, 2, 3, 4]},
-    covers="for loops: limit/offset (negative, zero, beyond the end), offset: continue after a limited loop and when the same loop resumes over a shorter or longer sequence, reversed, else, every forloop helper variable at every position, parentloop, break/continue at data-dependent positions - equal to the reference",
+    shard={"i": [0, 1, 2, 3, 4], "is_async": [False, True]},
+    covers="for loops: limit/offset (negative, zero, beyond the end), offset: continue after a limited loop and when the same loop resumes over a shorter or longer sequence, reversed, else, every forloop helper variable at every position, parentloop, break/continue at data-dependent positions - equal to the reference, through render() and render_async()",
     bounds="list len <= 3 of ints 0..3; limit, offset in -2..4 (islice realizes ints); 5 programs",
-    grid=lambda: [(i, a, l, o) for i in range(5) for a in ([], [1], [3, 1, 2]) for l in (-1, 0, 1, 4) for o in (-1, 0, 2, 4)],
+    grid=lambda: [(i, a, l, o, s) for i in range(5) for a in ([], [1], [3, 1, 2]) for l in (-1, 0, 1, 4) for o in (-1, 0, 2, 4) for s in (False, True)],
 )
-def k_loops(i: int, a: List[int], l: int, o: int) -> bool:
+def k_loops(i: int, a: List[int], l: int, o: int, is_async: bool) -> bool:
     # rows: the same loop (same variable and iterable text) runs over sequences of different length
     data = {"a": a, "l": l, "o": o, "rows": [a, [7], a[:1], a + a]}
     try:
-        got = ("ok", LOOP_T[i].render(**data))
+        got = ("ok", drive(LOOP_T[i].render_async(**data)) if is_async else LOOP_T[i].render(**data))
     except LiquidError:
         got = ("err",)
     try:
@@ -302,13 +303,13 @@ LAMBDA_T = [BASE.from_string(src) for src, _ in LAMBDA]
     pre=["len(a) <= 3", "all(0 <= k <= 2 for k in a)", "0 <= n <= 3"],
     timeout=240,
     shard={"i": list(range(len(LAMBDA)))},
-    covers="lambda filters (find, find_index, has, where, reject, map; one and two parameters) compute what the documentation says and their parameters are visible nowhere else: a later read of a same-named outer variable, the loop variable and forloop after the loop, a with-bound name; array literals in assign and for; macros with positional, keyword and default arguments; template strings with interpolated filtered expressions",
+    covers="lambda filters (find, find_index, has, where, reject, map; one and two parameters) compute what the documentation says and their parameters are visible nowhere else: a later read of a same-named outer variable, the loop variable and forloop after the loop, a with-bound name; array literals in assign and for; macros with positional, keyword and default arguments; template strings with interpolated filtered expressions; render() and render_async()",
     bounds="list len <= 3 of ints 0..2, n in 0..3; 10 programs with a direct Python oracle each",
-    grid=lambda: [(i, a, n) for i in range(len(LAMBDA)) for a in ([], [1], [2, 0, 1], [1, 1]) for n in (0, 1, 3)],
+    grid=lambda: [(i, a, n, s) for i in range(len(LAMBDA)) for a in ([], [1], [2, 0, 1], [1, 1]) for n in (0, 1, 3) for s in (False, True)],
 )
-def k_lambda(i: int, a: List[int], n: int) -> bool:
+def k_lambda(i: int, a: List[int], n: int, is_async: bool) -> bool:
     try:
-        got = LAMBDA_T[i].render(a=a, n=n)
+        got = drive(LAMBDA_T[i].render_async(a=a, n=n)) if is_async else LAMBDA_T[i].render(a=a, n=n)
     except LiquidError:
         return False
     return got == LAMBDA[i][1](a, n)
